@@ -249,7 +249,10 @@ pub fn run_node(data: &Value) -> Vec<Line> {
     while !queue.is_empty() && visited < max_nodes {
         let node = queue.remove(0);
         visited += 1;
-        let res = catch(|| caobab_api::run_node(&courses, &parts, &pre, &node));
+        // every other instance runs with the `--report-no-solution` flag: it only adds log lines and
+        // must not change a node's result (nor add a way to panic)
+        let report = (inst.courses.len() + inst.parts.len()) % 2 == 1;
+        let res = catch(|| caobab_api::run_node_report(&courses, &parts, &pre, &node, report));
         let payload = format!("{}#{}", it, fmt_node(&node));
         match res {
             Err(e) => {
@@ -430,7 +433,8 @@ fn solve_once(inst: &Inst, threads: u32, s: &Sched) -> sched::RunOut<Vec<Option<
     let courses = Arc::new(courses);
     let parts = Arc::new(parts);
     let rooms = inst.rooms.clone();
-    sched::run_sched(s, 5_000, move || cdecao::caobab::solve(courses, parts, rooms.as_ref(), false, threads))
+    let report = (courses.len() + parts.len()) % 2 == 1;
+    sched::run_sched(s, 5_000, move || cdecao::caobab::solve(courses, parts, rooms.as_ref(), report, threads))
 }
 
 pub fn run_solve(data: &Value) -> Vec<Line> {
